@@ -1375,6 +1375,10 @@ M('C03', 'isort_qdata permutes the shared _qdata / _data in place (round-5 seed 
   "        self._qdata = self._qdata[perm, :]\n        self._data = [self._data[p] for p in perm]\n        self._qdata_sorted = True", "        self._qdata[:] = self._qdata[perm, :]\n        self._data[:] = [self._data[p] for p in perm]\n        self._qdata_sorted = True",
   'OWN-benign-rebind')
 
+M('C02', 'svd(full_matrices): identity blocks without dtype (round-5 seed b)', NPC,
+  "                U_data.append(np.eye(a.legs[0].get_block_sizes()[qi], dtype=a.dtype))", "                U_data.append(np.eye(a.legs[0].get_block_sizes()[qi]))",
+  'DTYPE-block-ctor')
+
 # ---------------------------------------------------------------- C16 / C19
 M('C16', 'GMRES restart: relative residual norm used for normalisation (round-3 seed b)', KRY,
   """        self.total_error.append([npc.norm(self.rs[-1]) / self.b_norm])
